@@ -211,6 +211,19 @@ def run_case(case):
             fine = [len(FT(aa, bb, ice).solutions), len(FT(bb, aa, ice).solutions), len(FT(R @ a + sh, R @ b + sh, ice).solutions)]
         except Exception as e:       # noqa: BLE001
             fine = "fine scan failed: " + type(e).__name__
+        # second observable: the receiver moved by +-0.1 micrometre along the line of sight.  A true solution set does not change;
+        # a root lost because the root finder stepped on one of the isolated NaN values of r(theta) does.
+        nudged = []
+        try:
+            from pyrex.custom.layered_ice import LayeredRayTracer
+            u_ = np.array([b[0] - a[0], b[1] - a[1], 0.0])
+            u_ = u_ / max(np.linalg.norm(u_), 1e-300) if np.any(u_) else np.array([1.0, 0.0, 0.0])
+            for eps_ in (1e-7, -1e-7):
+                b2 = b + eps_ * u_
+                nudged.append([len(LayeredRayTracer(a, b2, ice).solutions), len(LayeredRayTracer(b2, a, ice).solutions), len(LayeredRayTracer(R @ a + sh, R @ b2 + sh, ice).solutions)])
+        except Exception as e:       # noqa: BLE001
+            nudged = "nudge failed: " + type(e).__name__
+        geo["n_with_receiver_moved_by_0.1_micrometre"] = nudged
     ok = v.check(len(s1) == len(s2) == len(s3), "swapping / moving the endpoints keeps the number of solutions", n=[len(s1), len(s2), len(s3)], n_with_20x_finer_angle_scan=fine, **geo)
     sample = dict(geo, n_solutions=len(s1))
     if not ok or not s1:
@@ -396,4 +409,9 @@ def kf_layered_angle_scan(case, viol):
     # mechanism established by measurement: the number of solutions of at least one of the three executions changes when
     # nothing but the resolution of the launch-angle scan changes (roots next to the NaN edges / jumps of r(theta) are found
     # or lost depending on where the scan points fall).  Counts that are unequal *and* independent of the scan are not this.
-    return isinstance(fine, list) and list(fine) != list(d.get("n", []))
+    nudged = d.get("n_with_receiver_moved_by_0.1_micrometre")
+    n_ = list(d.get("n", []))
+    if isinstance(fine, list) and list(fine) != n_:
+        return True
+    # ... or when the receiver is moved by a tenth of a micrometre (the root finder stepped on an isolated NaN of r(theta))
+    return isinstance(nudged, list) and any(list(x) != n_ for x in nudged)
